@@ -7,6 +7,15 @@ impl PeerSetP {
     #[verifier::external_body]
     pub fn new() -> (r: PeerSetP) ensures r.members == Set::<PeerId>::empty() { unimplemented!() }
 }
+impl PeerSetP {
+    // HashSet::insert: true iff the value was not present; afterwards it is
+    #[verifier::external_body]
+    pub fn insert(&mut self, p: PeerId) -> (r: bool)
+        ensures r == !old(self).members.contains(p), final(self).members == old(self).members.insert(p) { unimplemented!() }
+    #[verifier::external_body]
+    pub fn contains(&self, p: &PeerId) -> (r: bool) ensures r == self.members.contains(*p) { unimplemented!() }
+}
+impl Clone for PeerId { #[verifier::external_body] fn clone(&self) -> (r: PeerId) ensures r == *self { unimplemented!() } }
 impl Clone for PeerSetP { #[verifier::external_body] fn clone(&self) -> (r: PeerSetP) ensures r == *self { unimplemented!() } }
 #[verifier::external_body]
 pub struct Instant { b: u64 }
